@@ -345,6 +345,13 @@ def gen_bases(rng, nnat, nasm):
     for _ in range(nnat):
         data, _v, proto = progs.natural_pickle(rng)
         bases.append(("natural-p%d" % proto, data))
+    # loadable bases fickling's interpreter refuses (APPENDS / SETITEMS onto a constructed object): only the
+    # rating clause is evaluated on them
+    import collections
+    for proto in range(0, 6):
+        bases.append(("uninterpretable-p%d" % proto, pickle.dumps(collections.deque([1, "a", (2,)]), protocol=proto)))
+        bases.append(("uninterpretable-p%d" % proto,
+                      pickle.dumps(collections.OrderedDict([("k", 1), ("l", [2])]), protocol=proto)))
     # hand-made collisions with the injector's fixed memo keys and with len(memo)
     A = asm.assemble
     bases += [
@@ -661,7 +668,23 @@ def real_case(case):
         from fickling.fickle import Interpreter
         Interpreter(p).run()
     except Exception:
-        return {"status": "fickling-refuses-base"}
+        # outside the behavioural clauses (fickling cannot interpret the base), but the rating clause still
+        # applies to whatever the helpers emit: the rewritten pickle is never rated LIKELY_SAFE (an analysis
+        # that raises gives no rating at all, which is fine)
+        res = {"status": "fickling-refuses-base"}
+        if mode["helper"] != "insert_magic_int":
+            try:
+                p = Pickled.load(base)
+                apply_mode(p, mode)
+                out = p.dumps()
+                sev = check_safety(Pickled.load(out)).severity.name
+            except Exception as e:
+                out, sev = None, f"raised {type(e).__name__}"
+            res["severity"] = sev
+            if sev == "LIKELY_SAFE":
+                res["fails"] = ["rated-LIKELY_SAFE"]
+                res["out_hex"] = out.hex()
+        return res
     bs = observe(strip_frames(base), pure=True)
     if not bs["ok"] or bs["stack"] != (0, 0):
         return {"status": "base-leaves-values-on-the-stack"}        # outside the quantifier
@@ -831,6 +854,11 @@ def main(tier, seed):
             prop_bad.append({"case": c, "fails": ["harness-error " + r["exc"]]})
             continue
         if st not in ("ok", "refused"):
+            if st == "fickling-refuses-base" and r.get("severity"):
+                key = "refused-base severity:" + r["severity"]
+                chk.stats[key] = chk.stats.get(key, 0) + 1
+            if r.get("fails"):
+                prop_bad.append({"case": c, "fails": r["fails"], "rewritten_hex": r.get("out_hex", "")[:200]})
             continue
         evaluated += 1
         chk.count()
